@@ -1,19 +1,174 @@
 import Props.Defs
-namespace Coma.Proofs
+
+namespace Coma.Proofs.Indel
 open Coma Coma.Spec
 
-theorem cluster_partition (blur : Int) (calls : List Call) :
+theorem forall2_append {α β} {R : α → β → Prop} {l1 l1' : List α} {l2 l2' : List β}
+    (h : Forall2 R l1 l2) (h' : Forall2 R l1' l2') : Forall2 R (l1 ++ l1') (l2 ++ l2') := by
+  induction h with
+  | nil => simpa using h'
+  | cons hab _ ih => exact Forall2.cons hab ih
+
+theorem forall2_reverse {α β} {R : α → β → Prop} {l1 : List α} {l2 : List β}
+    (h : Forall2 R l1 l2) : Forall2 R l1.reverse l2.reverse := by
+  induction h with
+  | nil => exact Forall2.nil
+  | cons hab _ ih =>
+    simp only [List.reverse_cons]
+    exact forall2_append ih (Forall2.cons hab Forall2.nil)
+
+theorem summarises_single (c : Call) : Summarises c [c] := by
+  refine ⟨by simp, by simp, by simp, ?_, ?_, ⟨c, by simp, rfl⟩, ⟨c, by simp, rfl⟩⟩
+  · intro m hm; simp at hm; subst hm; exact ⟨rfl, rfl⟩
+  · intro m hm; simp at hm; subst hm; exact ⟨Int.le_refl _, Int.le_refl _⟩
+
+theorem sameKey_iff (a b : Call) :
+    a.sameKey b = true ↔ a.isIns = b.isIns ∧ a.chrom = b.chrom := by
+  unfold Call.sameKey; simp
+
+theorem summarises_merge {prev line : Call} {g : List Call} (h : Summarises prev g)
+    (hk : line.sameKey prev = true) (hc : line.count = 1) :
+    Summarises (prev.merge line) (g ++ [line]) := by
+  obtain ⟨_, hcount, hq, hkey, hb, ⟨ms, hms, hms'⟩, ⟨me, hme, hme'⟩⟩ := h
+  rw [sameKey_iff] at hk
+  refine ⟨by simp, ?_, ?_, ?_, ?_, ?_, ?_⟩
+  · simp [Call.merge, hcount, hc]
+  · simp [Call.merge, hq]
+  · intro m hm
+    simp only [Call.merge]
+    rcases List.mem_append.1 hm with hm | hm
+    · exact hkey m hm
+    · simp at hm; subst hm; exact hk
+  · intro m hm
+    simp only [Call.merge]
+    rcases List.mem_append.1 hm with hm | hm
+    · have := hb m hm; omega
+    · simp at hm; subst hm; omega
+  · simp only [Call.merge]
+    by_cases hle : prev.rStart ≤ line.rStart
+    · exact ⟨ms, by simp [hms], by omega⟩
+    · exact ⟨line, by simp, by omega⟩
+  · simp only [Call.merge]
+    by_cases hle : line.rStop ≤ prev.rStop
+    · exact ⟨me, by simp [hme], by omega⟩
+    · exact ⟨line, by simp, by omega⟩
+
+/-- one step of the loop preserves the partition invariant (both lists reversed) -/
+theorem step_inv (blur : Int) (line : Call) (hc : line.count = 1)
+    (acc : List Call) (gsRev : List (List Call)) (h : Forall2 Summarises acc gsRev) :
+    ∃ gsRev', Forall2 Summarises (clusterStep blur acc line) gsRev' ∧
+      gsRev'.reverse.flatten = gsRev.reverse.flatten ++ [line] := by
+  cases h with
+  | nil =>
+    exact ⟨[[line]], Forall2.cons (summarises_single line) Forall2.nil, by simp⟩
+  | @cons prev g rest grest hpg hrest =>
+    have hnew : ∃ gsRev', Forall2 Summarises (line :: prev :: rest) gsRev' ∧
+        gsRev'.reverse.flatten = (g :: grest).reverse.flatten ++ [line] :=
+      ⟨[line] :: g :: grest,
+        Forall2.cons (summarises_single line) (Forall2.cons hpg hrest), by simp⟩
+    simp only [clusterStep]
+    split
+    · split
+      · rename_i hk
+        exact ⟨(g ++ [line]) :: grest,
+          Forall2.cons (summarises_merge hpg hk hc) hrest, by simp⟩
+      · exact hnew
+    · exact hnew
+
+theorem fold_inv (blur : Int) (calls : List Call) (h1 : ∀ c ∈ calls, c.count = 1) :
+    ∀ (acc : List Call) (gsRev : List (List Call)), Forall2 Summarises acc gsRev →
+      ∃ gsRev', Forall2 Summarises (calls.foldl (clusterStep blur) acc) gsRev' ∧
+        gsRev'.reverse.flatten = gsRev.reverse.flatten ++ calls := by
+  induction calls with
+  | nil => intro acc gsRev h; exact ⟨gsRev, h, by simp⟩
+  | cons line rest ih =>
+    intro acc gsRev h
+    obtain ⟨gs1, hf1, hfl1⟩ := step_inv blur line (h1 line (by simp)) acc gsRev h
+    obtain ⟨gs2, hf2, hfl2⟩ := ih (fun c hc => h1 c (by simp [hc])) _ gs1 hf1
+    exact ⟨gs2, hf2, by rw [hfl2, hfl1]; simp⟩
+
+/-- CORRECTED form of `cluster_partition`: it needs every input `Count` to be 1, because
+    `Call.merge` adds `1` (not `line.count`) to the cluster count. -/
+theorem cluster_partition_of_unit (blur : Int) (calls : List Call)
+    (h1 : ∀ c ∈ calls, c.count = 1) :
     ∃ gs : List (List Call), gs.flatten = calls ∧
       Forall2 Summarises (clusterIndels blur calls) gs := by
-  sorry
+  obtain ⟨gsRev, hf, hfl⟩ := fold_inv blur calls h1 [] [] Forall2.nil
+  exact ⟨gsRev.reverse, by simpa using hfl, forall2_reverse hf⟩
+
+theorem sum_counts_of_forall2 {cs : List Call} {gs : List (List Call)}
+    (h : Forall2 Summarises cs gs) :
+    (cs.map (·.count)).sum = (gs.flatten.map (·.count)).sum := by
+  induction h with
+  | nil => rfl
+  | cons hab _ ih =>
+    simp only [List.map_cons, List.sum_cons, List.flatten_cons, List.map_append,
+      List.sum_append, ih, hab.2.1]
+
+theorem sum_counts_unit (calls : List Call) (h1 : ∀ c ∈ calls, c.count = 1) :
+    (calls.map (·.count)).sum = calls.length := by
+  induction calls with
+  | nil => rfl
+  | cons c rest ih =>
+    simp only [List.map_cons, List.sum_cons, List.length_cons]
+    rw [ih (fun c hc => h1 c (by simp [hc])), h1 c (by simp)]
+    omega
+
+theorem step_ids (blur : Int) (acc : List Call) (line : Call) :
+    (clusterStep blur acc line).reverse.flatMap (·.qids)
+      = acc.reverse.flatMap (·.qids) ++ line.qids := by
+  cases acc with
+  | nil => simp [clusterStep]
+  | cons prev rest =>
+    simp only [clusterStep]
+    split
+    · split
+      · simp [Call.merge, List.flatMap_append]
+      · simp [List.flatMap_append]
+    · simp [List.flatMap_append]
+
+theorem fold_ids (blur : Int) (calls : List Call) : ∀ acc : List Call,
+    (calls.foldl (clusterStep blur) acc).reverse.flatMap (·.qids)
+      = acc.reverse.flatMap (·.qids) ++ calls.flatMap (·.qids) := by
+  induction calls with
+  | nil => intro acc; simp
+  | cons line rest ih =>
+    intro acc
+    simp only [List.foldl_cons, ih, step_ids, List.flatMap_cons, List.append_assoc]
+
+/-- the two-call input refuting the unguarded `cluster_partition` statement -/
+def cex : List Call :=
+  [⟨false, 1, 100, 200, [7], 1, 2, 5000, 1⟩, ⟨false, 1, 150, 250, [8], 1, 2, 5000, 5⟩]
+
+/-- `cluster_partition` as stated (no hypothesis on the input counts) is FALSE -/
+theorem cluster_partition_false :
+    ¬ ∃ gs : List (List Call), gs.flatten = cex ∧
+        Forall2 Summarises (clusterIndels 30000 cex) gs := by
+  rintro ⟨gs, hfl, hf⟩
+  have hlen : (clusterIndels 30000 cex).map (·.count) = [2] := by decide +kernel
+  have hsum := sum_counts_of_forall2 hf
+  rw [hfl, hlen] at hsum
+  exact absurd hsum (by decide)
+
+end Coma.Proofs.Indel
+
+namespace Coma.Proofs
+open Coma Coma.Spec Coma.Proofs.Indel
+
+theorem cluster_partition (blur : Int) (calls : List Call) (h1 : ∀ c ∈ calls, c.count = 1) :
+    ∃ gs : List (List Call), gs.flatten = calls ∧
+      Forall2 Summarises (clusterIndels blur calls) gs :=
+  Indel.cluster_partition_of_unit blur calls h1
 
 theorem cluster_count (blur : Int) (calls : List Call) (h1 : ∀ c ∈ calls, c.count = 1) :
     ((clusterIndels blur calls).map (·.count)).sum = calls.length := by
-  sorry
+  obtain ⟨gs, hfl, hf⟩ := cluster_partition_of_unit blur calls h1
+  rw [sum_counts_of_forall2 hf, hfl, sum_counts_unit calls h1]
 
 theorem cluster_ids (blur : Int) (calls : List Call) :
     (clusterIndels blur calls).flatMap (·.qids) = calls.flatMap (·.qids) := by
-  sorry
+  unfold clusterIndels
+  rw [fold_ids]; simp
 
 theorem mkCall_spec (lo chrom qid rs re qs qe : Int) (hlo : 0 ≤ lo) :
     (∀ c, mkCall lo chrom qid rs re qs qe = some c →
@@ -22,6 +177,25 @@ theorem mkCall_spec (lo chrom qid rs re qs qe : Int) (hlo : 0 ≤ lo) :
         c.chrom = chrom ∧ c.qids = [qid] ∧ c.rStart = rs ∧ c.rStop = re ∧ c.count = 1) ∧
     (mkCall lo chrom qid rs re qs qe = none ↔
         ¬ (lo < iabs' (iabs' (rs - re) - iabs' (qs - qe)) ∧ iabs' (iabs' (rs - re) - iabs' (qs - qe)) < 100000)) := by
-  sorry
+  unfold mkCall
+  simp only []
+  generalize iabs' (rs - re) - iabs' (qs - qe) = diff
+  constructor
+  · intro c hc
+    split at hc
+    · rename_i hg
+      cases hc
+      simp only [decide_eq_true_eq, true_and, and_true]
+      unfold iabs' at hg
+      split at hg <;> omega
+    · cases hc
+  · split
+    · rename_i hg
+      simp only [reduceCtorEq, false_iff, Decidable.not_not]
+      exact ⟨hg.1, hg.2⟩
+    · rename_i hg
+      simp only [true_iff]
+      intro h
+      exact hg ⟨h.1, h.2⟩
 
 end Coma.Proofs
